@@ -32,7 +32,9 @@ def c02_jobs(tier):
     if tier == "quick":
         jobs += [J("hsms", "ZZ_C02_tree", depth=2, width=2, menu=2, maxn=1)]
     else:
-        jobs += [J("hsms", "ZZ_C02_tree", depth=2, width=2, menu=6, maxn=1, timeout_s=7200),
+        jobs += [J("hsms", "ZZ_C02_tree", depth=2, width=2, menu=6, maxn=1, timeout_s=7200, **{"force.tk": k, "force.tw": w}) for k in range(6) for w in (0,)]
+        jobs += [J("hsms", "ZZ_C02_tree", depth=2, width=2, menu=6, maxn=1, timeout_s=7200, **{"force.tk": 6, "force.tw": w, "force.tc_0k": c}) for w in (1, 2) for c in range(7)]
+        jobs += [J("hsms", "ZZ_C02_tree", depth=2, width=2, menu=6, maxn=1, timeout_s=7200, **{"force.tk": 6, "force.tw": 0}),
                  J("hsms", "ZZ_C02_tree", depth=3, width=2, menu=1, maxn=1, timeout_s=7200),
                  J("hsms", "ZZ_C02_tree", depth=1, width=2, menu=13, maxn=2, timeout_s=7200)]
     jobs += [J("hsms", "ZZ_C02_incomplete", which=w) for w in range(4)]
@@ -59,7 +61,9 @@ def c01_jobs(tier):
         jobs += [J("hsms", "ZZ_C01_tree", depth=2, width=2, menu=2, maxn=1)]
         bsizes = [255, 256, 257]
     else:
-        jobs += [J("hsms", "ZZ_C01_tree", depth=2, width=2, menu=6, maxn=1, timeout_s=7200),
+        jobs += [J("hsms", "ZZ_C01_tree", depth=2, width=2, menu=6, maxn=1, timeout_s=7200, **{"force.tk": k}) for k in range(6)]
+        jobs += [J("hsms", "ZZ_C01_tree", depth=2, width=2, menu=6, maxn=1, timeout_s=7200, **{"force.tk": 6, "force.tw": w, "force.tc_0k": c}) for w in (1, 2) for c in range(7)]
+        jobs += [J("hsms", "ZZ_C01_tree", depth=2, width=2, menu=6, maxn=1, timeout_s=7200, **{"force.tk": 6, "force.tw": 0}),
                  J("hsms", "ZZ_C01_tree", depth=3, width=2, menu=1, maxn=1, timeout_s=7200),
                  J("hsms", "ZZ_C01_tree", depth=1, width=2, menu=13, maxn=2, timeout_s=7200)]
         bsizes = [255, 256, 257, 65535, 65536]
